@@ -21,7 +21,8 @@ demo_base=$(basename $demo_file)
 [ -f "$src/$demo_base" ] || { echo "$name: demo file $src/$demo_base missing"; cleanup; exit 2; }
 rundemo() { cp $src/$demo_base $wt/$demo_dir/$demo_base; (cd $wt && timeout 300 bash -c "$demo_cmd") > $S/demo-$name-$1.txt 2>&1; rc=$?; rm -f $wt/$demo_dir/$demo_base; return $rc; }
 rundemo clean; clean_rc=$?
-git -C $wt apply $src/patch.diff || { echo "$name: patch does not apply"; cleanup; exit 2; }
+git -C $wt apply $src/patch.diff 2>/dev/null || git -C $wt apply --3way $src/patch.diff >/dev/null 2>&1 || { echo "$name: patch does not apply"; cleanup; exit 2; }
+git -C $wt diff HEAD > $S/applied-$name.diff  # the patch as it applies to the current tree (kept as patch.diff)
 (cd $wt && go build ./... && go vet ./... >/dev/null 2>&1; go test -vet=off -count=1 ./... 2>&1) > $S/tests-$name.txt; tests_rc=$?
 nfail=$(grep -c "^FAIL\|^--- FAIL" $S/tests-$name.txt)
 rundemo patched; patched_rc=$?
@@ -40,7 +41,7 @@ if [ $ok -eq 1 ]; then
     [ $rc -eq 1 ] && detected="$detected $p"
   done
   d=/verif/seeded/$name; mkdir -p $d
-  if [ "$(cd $src && pwd)" != "$(cd $d && pwd)" ]; then cp $src/patch.diff $d/patch.diff; cp $src/$demo_base $d/$demo_base; fi
+  if [ "$(cd $src && pwd)" != "$(cd $d && pwd)" ]; then cp $S/applied-$name.diff $d/patch.diff; cp $src/$demo_base $d/$demo_base; fi
   python3 - "$src/meta.json" "$d/meta.json" "$name" "$detected" "$results" "$*" <<'PY'
 import json,sys,subprocess
 src,dst,name,det,res,props=sys.argv[1:7]
